@@ -835,3 +835,240 @@ Proof.
   apply N.eqb_eq. destruct cache; [|reflexivity].
   rewrite N.shiftr_div_pow2. change (2 ^ 1) with 2. apply N.div_mul. lia.
 Qed.
+
+(* ------------------------------------------------------------------ *)
+(* 13. the strict parser on an emitted frame                           *)
+(* ------------------------------------------------------------------ *)
+Lemma pow256_ge w : (1 <= w)%nat -> 256 <= 256 ^ N.of_nat w.
+Proof.
+  intro Hw. change 256 with (256 ^ 1) at 1. apply N.pow_le_mono_r; lia.
+Qed.
+
+Lemma s_parse_reach fb offb w pw (idx crc cache : bool) n plen ents recs payload tl :
+  N.testbit fb 7 = idx -> N.testbit fb 6 = crc -> N.testbit fb 5 = cache ->
+  N.testbit fb 4 = false -> N.testbit fb 3 = false -> N.to_nat (fb mod 8) = w ->
+  N.to_nat offb = pw ->
+  (1 <= w <= 4)%nat -> (1 <= pw <= 8)%nat -> implb cache idx = true ->
+  1 <= n -> n < 256 ^ N.of_nat w -> plen < 256 ^ N.of_nat pw -> N.to_nat plen = length payload ->
+  (if idx then length ents = N.to_nat n /\ Forall (fun x => x < 256 ^ N.of_nat pw) ents else ents = []) ->
+  s_cells (N.to_nat n) payload w = Some (recs, []) ->
+  let d := boc_magic ++ fb :: offb :: be_bytes w n ++ be_bytes w 1 ++ be_bytes w 0 ++ be_bytes pw plen
+           ++ be_bytes w 0 ++ concat (map (be_bytes pw) ents) ++ payload ++ tl in
+  (if crc then beqb tl (s_crc32c (firstn (length d - 4) d) false) && (length tl =? 4)%nat
+   else (length tl =? 0)%nat) = true ->
+  s_parse d = Some (mkSB idx crc cache w pw recs [0] ents).
+Proof.
+  intros T7 T6 T5 T4 T3 Hw Hoff Wr Pr Himp Hn1 Hnw Hpl Hplen Hents Hcells d Hcrc.
+  pose proof (pow256_ge w ltac:(lia)) as Hw256.
+  assert (Ht : take 4 d = Some (boc_magic, fb :: offb :: be_bytes w n ++ be_bytes w 1 ++ be_bytes w 0
+             ++ be_bytes pw plen ++ be_bytes w 0 ++ concat (map (be_bytes pw) ents) ++ payload ++ tl)).
+  { apply take_app. reflexivity. }
+  unfold s_parse. rewrite Ht. cbv beta iota zeta.
+  change (beqb boc_magic s_magic_reach) with true. cbv beta iota.
+  rewrite T7, T6, T5, T4, T3, Hw, Hoff.
+  change (negb (true || (beqb boc_magic s_magic_idx || beqb boc_magic s_magic_idx_crc))) with false.
+  cbv beta iota.
+  assert (Hc : negb (negb false && negb false) || (w <? 1)%nat || (4 <? w)%nat
+     || (pw <? 1)%nat || (8 <? pw)%nat || cache && negb idx = false).
+  { destruct cache, idx; try discriminate Himp; cbn [negb andb orb]; lia. }
+  rewrite Hc. clear Hc.
+  rewrite (take_uint_be w n) by exact Hnw.
+  rewrite (take_uint_be w 1) by lia.
+  rewrite (take_uint_be w 0) by lia.
+  rewrite (take_uint_be pw plen) by exact Hpl.
+  change (N.to_nat 1) with 1%nat. cbn [take_uints].
+  rewrite (take_uint_be w 0) by lia.
+  assert (Hidx : (if idx then take_uints (N.to_nat n) pw (concat (map (be_bytes pw) ents) ++ payload ++ tl)
+                  else Some ([], concat (map (be_bytes pw) ents) ++ payload ++ tl))
+                 = Some (ents, payload ++ tl)).
+  { destruct idx.
+    - destruct Hents as [Hl Hf]. rewrite <- Hl. apply take_uints_be. exact Hf.
+    - rewrite Hents. reflexivity. }
+  rewrite Hidx. rewrite (take_app (N.to_nat plen) payload tl Hplen).
+  rewrite Hcells, Hcrc.
+  rewrite (proj2 (N.leb_le (1 + 0) n)) by lia. reflexivity.
+Qed.
+
+Lemma flags_fields (idx crc cache : bool) w : (1 <= w <= 3)%nat ->
+  let fb := N.lor (128 * b2n idx + 64 * b2n crc + 32 * b2n cache + N.of_nat w) (N.of_nat w) in
+  fb < 256 /\ N.testbit fb 7 = idx /\ N.testbit fb 6 = crc /\ N.testbit fb 5 = cache /\
+  N.testbit fb 4 = false /\ N.testbit fb 3 = false /\ N.to_nat (fb mod 8) = w.
+Proof.
+  intro Hw. assert (Hc : w = 1%nat \/ w = 2%nat \/ w = 3%nat) by lia.
+  destruct Hc as [->|[->| ->]]; destruct idx, crc, cache; vm_compute; repeat split; reflexivity.
+Qed.
+
+Lemma shape_of_wf : forall c, boc_wf (k_tree c) = true -> forall x, In x (subcells c) -> shape_ok x.
+Proof.
+  induction c as [ty bits rs m hs ds IH] using kcell_ind'. intros Hwf x Hx.
+  rewrite k_tree_eq in Hwf. cbn [k_ty k_bits k_refs boc_wf] in Hwf.
+  apply andb_prop in Hwf. destruct Hwf as [Hwf Hrs]. apply andb_prop in Hwf. destruct Hwf as [Hlen Hty].
+  rewrite subcells_eq in Hx. cbn [k_refs] in Hx. destruct Hx as [<-|Hx].
+  - unfold shape_ok. cbn [k_refs k_ty k_bits]. rewrite map_length in Hlen. apply Nat.leb_le in Hlen.
+    split; [exact Hlen|]. apply orb_prop in Hty. destruct Hty as [Hty|Hty].
+    + left. apply Z.eqb_eq in Hty. exact Hty.
+    + right. apply andb_prop in Hty. destruct Hty as [H8 Hty]. apply Nat.leb_le in H8.
+      apply Z.eqb_eq in Hty. auto.
+  - apply in_flat_map in Hx. destruct Hx as (r & Hr & Hx).
+    rewrite Forall_forall in IH. apply (IH r Hr); [|exact Hx].
+    rewrite forallb_forall in Hrs. apply Hrs. apply in_map. exact Hr.
+Qed.
+
+Definition frame (fb off : N) (w pw : nat) (n plen : N) (ents payload tl : list N) : list N :=
+  boc_magic ++ fb :: off :: be_bytes w n ++ be_bytes w 1 ++ be_bytes w 0 ++ be_bytes pw plen
+  ++ be_bytes w 0 ++ concat (map (be_bytes pw) ents) ++ payload ++ tl.
+
+Lemma frame_app fb off w pw n plen ents payload tl :
+  frame fb off w pw n plen ents payload [] ++ tl = frame fb off w pw n plen ents payload tl.
+Proof.
+  unfold frame. rewrite app_nil_r. rewrite <- !app_assoc. cbn [app]. rewrite <- !app_assoc. reflexivity.
+Qed.
+
+Lemma frame_ok fb off w pw n plen ents payload :
+  fb < 256 -> off < 256 -> bytes_ok payload ->
+  bytes_ok (frame fb off w pw n plen ents payload []).
+Proof.
+  intros Hfb Hoff Hp. unfold frame, bytes_ok. rewrite app_nil_r.
+  apply Forall_app. split; [unfold boc_magic; repeat constructor; lia|].
+  constructor; [exact Hfb|]. constructor; [exact Hoff|].
+  repeat (apply Forall_app; split; [apply be_bytes_ok|]).
+  apply Forall_app. split; [|exact Hp].
+  apply Forall_concat. apply Forall_forall. intros x Hx. apply in_map_iff in Hx.
+  destruct Hx as (y & <- & _). apply be_bytes_ok.
+Qed.
+
+Lemma concat_length_le {A} (f : A -> list N) B : forall l, (forall x, In x l -> (length (f x) <= B)%nat) ->
+  (length (concat (map f l)) <= length l * B)%nat.
+Proof.
+  induction l as [|x l IH]; intro Hb; [cbn; lia|].
+  cbn [map concat length]. rewrite app_length.
+  specialize (Hb x (or_introl eq_refl)) as Hx.
+  specialize (IH (fun y Hy => Hb y (or_intror Hy))). lia.
+Qed.
+
+Lemma concat_length_in {A} (f : A -> list N) x : forall l, In x l ->
+  (length (f x) <= length (concat (map f l)))%nat.
+Proof.
+  induction l as [|y l IH]; intro Hx; [destruct Hx|].
+  cbn [map concat]. rewrite app_length. destruct Hx as [->|Hx]; [lia|]. specialize (IH Hx). lia.
+Qed.
+
+Lemma beqb_refl l : beqb l l = true.
+Proof. exact (proj2 (bytes_eqb_eq l l) eq_refl). Qed.
+
+Section Conforms.
+Variable H : list N -> list N.
+
+Theorem to_boc_conforms : forall t k idx crc cache,
+  build H t = Ok k -> boc_wf t = true -> no_collision k -> implb cache idx = true ->
+  N.of_nat (length (order k)) < 2 ^ 24 ->
+  exists d, to_boc k idx crc cache = Ok d /\
+    s_decode d = Some [t] /\
+    exists cs, s_all_cells d = Some cs /\ nodup_trees cs = true /\ (forall c, In c cs <-> In c (subtrees t)).
+Proof.
+  intros t k idx crc cache Hb Hwf Hnc Himp Hsz.
+  pose proof (sub_eqb_eq H t k Hb Hnc) as Heq.
+  destruct (build_sub H t k Hb) as [Htree Hsub].
+  destruct (order_props k Heq) as (Nd & Tp & Hin & (rest & Ehd)).
+  destruct (order_spec H t k Hb Hnc) as (Sp1 & Sp2 & _ & _).
+  set (U := fun c => In c (subcells k)).
+  set (o := order k) in *. set (n := N.of_nat (length o)) in *. set (w := byte_len n).
+  assert (Hn1 : 1 <= n) by (unfold n; rewrite Ehd; cbn [length]; lia).
+  destruct (byte_len_fits n) as [Hnw Hw1]. fold w in Hnw, Hw1. specialize (Hw1 ltac:(lia)).
+  assert (Hw3 : (w <= 3)%nat) by (apply byte_len_le; exact Hsz).
+  assert (oU : forall x, In x o -> U x) by (intros x Hx; apply Hin; exact Hx).
+  assert (Hgood : forall c, In c o -> cell_good o w c).
+  { intros c Hc. split; [|split].
+    - apply (shape_of_wf k); [rewrite Htree; exact Hwf|apply Hin; exact Hc].
+    - destruct (built_desc H c (Hsub c (oU c Hc))) as (d1 & d2 & D1 & D2). exact (desc_ok_of c d1 d2 D1 D2).
+    - exact (refs_found_all U Heq o w oU Nd Tp c Hc Hnw). }
+  set (sers := map (ser o w) o).
+  assert (Hsers : mapM (fun x => cell_serialize x o w) o = Ok sers).
+  { apply mapM_ok. intros c Hc. destruct (Hgood c Hc) as (_ & Hd & Hf). apply cell_serialize_ok; assumption. }
+  set (payload := concat sers). set (plen := N.of_nat (length payload)).
+  assert (Hpl_lo : (2 <= length payload)%nat).
+  { assert (Hk : In k o) by (rewrite Ehd; left; reflexivity).
+    destruct (Hgood k Hk) as ((Hr4 & _) & Hd & _). pose proof (ser_length o w k Hd Hr4).
+    pose proof (concat_length_in (ser o w) k o Hk). unfold payload, sers. lia. }
+  assert (Hpl_hi : (length payload <= length o * 142)%nat).
+  { unfold payload, sers. apply concat_length_le. intros c Hc.
+    destruct (Hgood c Hc) as ((Hr4 & _) & Hd & _). pose proof (ser_length o w c Hd Hr4). lia. }
+  assert (Hpok : bytes_ok payload).
+  { unfold payload, sers, bytes_ok. apply Forall_concat. apply Forall_forall. intros x Hx.
+    apply in_map_iff in Hx. destruct Hx as (c & <- & Hc). apply ser_bytes_ok. apply (Hgood c Hc). }
+  set (maxoff := if cache then plen * 2 else plen).
+  set (pw := byte_len maxoff).
+  assert (Hmax : plen <= maxoff /\ maxoff <= 2 * plen) by (unfold maxoff; destruct cache; lia).
+  destruct (byte_len_fits maxoff) as [Hmw Hpw1]. fold pw in Hmw, Hpw1.
+  specialize (Hpw1 ltac:(unfold plen in Hmax; lia)).
+  assert (Hpw8 : (pw <= 8)%nat).
+  { apply byte_len_le. change (256 ^ N.of_nat 8) with 18446744073709551616.
+    change (2 ^ 24) with 16777216 in Hsz. unfold plen, n in *. lia. }
+  set (fb := N.lor (128 * b2n idx + 64 * b2n crc + 32 * b2n cache + N.of_nat w) (N.of_nat w)).
+  destruct (flags_fields idx crc cache w ltac:(lia)) as (F0 & F7 & F6 & F5 & F4 & F3 & Fw). fold fb in F0, F7, F6, F5, F4, F3, Fw.
+  set (ents := if idx then entries cache 0 sers else []).
+  set (body := frame fb (N.of_nat pw) w pw n plen ents payload []).
+  set (tl := if crc then s_crc32c body false else []).
+  set (d := frame fb (N.of_nat pw) w pw n plen ents payload tl).
+  assert (Hbok : bytes_ok body) by (apply frame_ok; [exact F0|lia|exact Hpok]).
+  assert (Hboc : to_boc k idx crc cache = Ok d).
+  { unfold to_boc. cbv zeta. fold o. fold n. fold w. fold fb.
+    unfold to_byte1 at 1. rewrite (proj2 (N.ltb_lt fb 256) F0). cbn [bind].
+    rewrite Hsers. cbn [bind]. fold payload. fold plen. fold maxoff. fold pw.
+    unfold to_byte1. rewrite (proj2 (N.ltb_lt (N.of_nat pw) 256) ltac:(lia)). cbn [bind].
+    rewrite index_fold. cbn [snd app].
+    assert (Ebody : (boc_magic ++ fb :: N.of_nat pw :: be_bytes w n ++ be_bytes w 1 ++ be_bytes w 0
+                     ++ be_bytes pw plen ++ be_bytes w 0)
+                    ++ (if idx then concat (map (be_bytes pw) (entries cache 0 sers)) else []) ++ payload
+                    = body).
+    { unfold body, frame, ents. rewrite app_nil_r. rewrite <- !app_assoc. cbn [app].
+      rewrite <- !app_assoc. destruct idx; reflexivity. }
+    rewrite Ebody. f_equal. unfold d. rewrite <- frame_app. fold body. unfold tl.
+    destruct crc; [|rewrite app_nil_r; reflexivity].
+    rewrite (crc32c_correct body false Hbok). reflexivity. }
+  set (recs := map (rec_of o w) o).
+  assert (Hparse : s_parse d = Some (mkSB idx crc cache w pw recs [0] ents)).
+  { assert (P1 : (1 <= w <= 4)%nat) by lia.
+    assert (P2 : (1 <= pw <= 8)%nat) by lia.
+    assert (P3 : plen < 256 ^ N.of_nat pw) by lia.
+    assert (P4 : N.to_nat plen = length payload) by (unfold plen; apply Nat2N.id).
+    assert (P5 : if idx then length ents = N.to_nat n /\ Forall (fun x => x < 256 ^ N.of_nat pw) ents
+                 else ents = []).
+    { unfold ents. destruct idx; [|reflexivity]. split.
+      + rewrite entries_length. unfold sers, n. rewrite map_length, Nat2N.id. reflexivity.
+      + apply Forall_forall. intros x Hx. apply entries_bound in Hx. fold payload in Hx.
+        rewrite N.add_0_l in Hx. fold plen in Hx. fold maxoff in Hx. lia. }
+    assert (P6 : s_cells (N.to_nat n) payload w = Some (recs, [])).
+    { unfold n. rewrite Nat2N.id. unfold recs.
+      pose proof (s_cells_good o w o [] Hgood) as Hc. rewrite app_nil_r in Hc. exact Hc. }
+    assert (P7 : (if crc then beqb tl (s_crc32c (firstn (length d - 4) d) false) && (length tl =? 4)%nat
+                  else (length tl =? 0)%nat) = true).
+    { unfold tl. destruct crc; [|reflexivity].
+      assert (Ed : d = body ++ s_crc32c body false).
+      { unfold d, tl. rewrite <- frame_app. reflexivity. }
+      assert (El : length (s_crc32c body false) = 4%nat) by (unfold s_crc32c; apply le_bytes_length).
+      rewrite El, andb_true_r.
+      replace (firstn (length d - 4) d) with body; [apply beqb_refl|].
+      rewrite Ed, app_length, El. replace (length body + 4 - 4)%nat with (length body) by lia.
+      symmetry. apply firstn_skipn_app. }
+    exact (s_parse_reach fb (N.of_nat pw) w pw idx crc cache n plen ents recs payload tl
+             F7 F6 F5 F4 F3 Fw (Nat2N.id pw) P1 P2 Himp Hn1 Hnw P3 P4 P5 P6 P7). }
+  assert (Hvalid : s_valid (mkSB idx crc cache w pw recs [0] ents) = true).
+  { unfold s_valid. cbn [sb_cells sb_roots sb_has_idx sb_index sb_has_cache].
+    assert (Hlr : N.of_nat (length recs) = n) by (unfold recs, n; rewrite map_length; reflexivity).
+    rewrite Hlr.
+    pose proof (refs_ok_suffix U Heq o w oU Nd Tp o [] eq_refl) as Hr. cbn [length] in Hr.
+    change (N.of_nat 0) with 0 in Hr. fold n in Hr. fold recs in Hr. rewrite Hr.
+    cbn [forallb]. rewrite (proj2 (N.ltb_lt 0 n)) by lia. cbn [andb].
+    unfold ents. destruct idx; [|reflexivity]. apply index_ok_entries. }
+  assert (Htrees : s_trees recs 0 = map k_tree o).
+  { exact (trees_suffix U Heq o w oU Nd Tp o [] eq_refl). }
+  exists d. split; [exact Hboc|]. split.
+  - unfold s_decode. rewrite Hparse, Hvalid. cbn [sb_cells sb_roots]. rewrite Htrees.
+    cbn [map]. rewrite Ehd. cbn [map nth N.to_nat]. rewrite Htree. reflexivity.
+  - exists (map k_tree o). split; [|split].
+    + unfold s_all_cells. rewrite Hparse, Hvalid. cbn [sb_cells]. rewrite Htrees. reflexivity.
+    + exact Sp1.
+    + exact Sp2.
+Qed.
+End Conforms.
